@@ -281,16 +281,19 @@ structure Rest (a b : Top) : Prop where
   now : b.now = a.now
   nTB : b.nTB = a.nTB
   sub : ∀ c ∈ b.tbinds, c ∈ a.tbinds
+  /-- the bound of the loop of `tickit_evloop_invoke_timers` (due timers + registrations the harness still takes)
+      does not grow: who registers a timer uses up a registration -/
+  pot : b.pot ≤ a.pot
 
-theorem Rest.refl (a : Top) : Rest a a := ⟨InstRel.refl _, rfl, rfl, rfl, rfl, rfl, rfl, rfl, rfl, rfl, rfl, rfl, fun _ h => h⟩
+theorem Rest.refl (a : Top) : Rest a a := ⟨InstRel.refl _, rfl, rfl, rfl, rfl, rfl, rfl, rfl, rfl, rfl, rfl, rfl, fun _ h => h, Nat.le_refl _⟩
 
 theorem Rest.trans {a b c : Top} (h1 : Rest a b) (h2 : Rest b c) : Rest a c :=
   ⟨h1.inst.trans h2.inst, h2.dangling.trans h1.dangling, h2.xterms.trans h1.xterms, h2.sw.trans h1.sw,
    h2.swFirst.trans h1.swFirst, h2.swHandler.trans h1.swHandler, h2.fail.trans h1.fail, h2.mock.trans h1.mock,
    h2.hasFd.trans h1.hasFd, h2.inputDead.trans h1.inputDead, h2.now.trans h1.now, h2.nTB.trans h1.nTB,
-   fun c hc => h1.sub c (h2.sub c hc)⟩
+   fun c hc => h1.sub c (h2.sub c hc), Nat.le_trans h2.pot h1.pot⟩
 
-macro "rest_rfl" : tactic => `(tactic| exact ⟨InstRel.refl _, rfl, rfl, rfl, rfl, rfl, rfl, rfl, rfl, rfl, rfl, rfl, fun _ h => h⟩)
+macro "rest_rfl" : tactic => `(tactic| exact ⟨InstRel.refl _, rfl, rfl, rfl, rfl, rfl, rfl, rfl, rfl, rfl, rfl, rfl, fun _ h => h, Nat.le_refl _⟩)
 
 theorem Rest.swSame {a b : Top} (h : Rest a b) : SwSame a b := ⟨h.sw, h.swFirst, h.swHandler, h.xterms, h.fail⟩
 
@@ -331,11 +334,11 @@ theorem sync_rest (top : Top) : Rest top top.sync := by
   dsimp only
   split
   · split
-    · exact ⟨InstRel.refl _, rfl, rfl, rfl, rfl, rfl, rfl, rfl, rfl, rfl, rfl, rfl, by intro c hc; cases hc⟩
+    · exact ⟨InstRel.refl _, rfl, rfl, rfl, rfl, rfl, rfl, rfl, rfl, rfl, rfl, rfl, (by intro c hc; cases hc), Nat.le_refl _⟩
     · exact Rest.refl top
   · split
-    · exact ⟨InstRel.refl _, rfl, rfl, rfl, rfl, rfl, rfl, rfl, rfl, rfl, rfl, rfl, by intro c hc; cases hc⟩
-    · exact ⟨InstRel.refl _, rfl, rfl, rfl, rfl, rfl, rfl, rfl, rfl, rfl, rfl, rfl, fun c hc => (List.mem_filter.1 hc).1⟩
+    · exact ⟨InstRel.refl _, rfl, rfl, rfl, rfl, rfl, rfl, rfl, rfl, rfl, rfl, rfl, (by intro c hc; cases hc), Nat.le_refl _⟩
+    · exact ⟨InstRel.refl _, rfl, rfl, rfl, rfl, rfl, rfl, rfl, rfl, rfl, rfl, rfl, fun c hc => (List.mem_filter.1 hc).1, Nat.le_refl _⟩
 
 theorem sync_tbinds (top : Top) : top.sync.tbinds = [] ∨ (rootAlive top.st = true ∧ top.sync.tbinds = top.tbinds) ∨
     (rootAlive top.st = false ∧ top.sync.tbinds = top.tbinds.filter (·.isApp)) := by
@@ -393,8 +396,69 @@ theorem tAct_tref (cfg : Cfg) (top : Top) : tAct cfg top .tref =
 theorem SInv.of_log {gh : Ghost} {st : St} (inv : SInv gh st) (l : List String) : SInv gh { st with log := l } :=
   ⟨inv.toSInvB.of_wx rfl rfl rfl rfl rfl rfl, inv.wref, inv.glive⟩
 
+/-- Fields the invariant does not look at. -/
+theorem FInv.of_fields {gh : Ghost} {a b : Top} (F : FInv gh a) (hst : b.st = a.st) (htb : b.tbinds = a.tbinds) : FInv gh b :=
+  ⟨by rw [hst]; exact F.inv, by rw [hst]; exact F.keep, by rw [htb]; exact F.ids, by rw [hst, htb]; exact F.root⟩
+
+theorem instHeld_spec {top : Top} (h : instHeld top = true) : ∃ i, top.inst = some i ∧ i.freed = false ∧ 0 < i.appRefs := by
+  unfold instHeld at h
+  cases hi : top.inst with
+  | none => rw [hi] at h; cases h
+  | some i =>
+    rw [hi] at h
+    simp only [Bool.and_eq_true, Bool.not_eq_true', decide_eq_true_eq] at h
+    exact ⟨i, rfl, h.1, h.2⟩
+
+/-! ### the bound of the timer loop -/
+
+theorem pot_some {top : Top} {i : Inst} (h : top.inst = some i) :
+    top.pot = (i.timers.filter (fun e => decide (e.1 ≤ top.now))).length + (watchCap - i.nW) := by
+  unfold Top.pot; rw [h]
+
+theorem pot_none {top : Top} (h : top.inst = none) : top.pot = 0 := by
+  unfold Top.pot; rw [h]
+
+theorem setInst_inst {top : Top} {i : Inst} (h : top.inst = some i) (f : Inst → Inst) : (setInst top f).inst = some (f i) := by
+  unfold setInst; rw [h]; rfl
+
+theorem setInst_inst_none {top : Top} (h : top.inst = none) (f : Inst → Inst) : (setInst top f).inst = none := by
+  unfold setInst; rw [h]; rfl
+
+/-- `tickit_watch_timer_at_tv` puts one entry into the queue: it is counted by a filter exactly when it passes it. -/
+theorem filter_insertTimer_length (l : List (Int × WItem)) (at_ : Int) (w : WItem) (q : Int × WItem → Bool) :
+    ((insertTimer l at_ w).filter q).length = (l.filter q).length + (if q (at_, w) = true then 1 else 0) := by
+  have h := congrArg (fun l' => (List.filter q l').length)
+    (List.takeWhile_append_dropWhile (p := fun (e : Int × WItem) => decide (e.1 ≤ at_)) (l := l))
+  simp only [List.filter_append, List.length_append] at h
+  unfold insertTimer
+  simp only [List.filter_append, List.length_append, List.filter_cons, List.filter_nil]
+  split
+  · simp only [List.length_cons, List.length_nil]; omega
+  · simp only [List.length_nil]; omega
+
+theorem filter_dropWhile_length_le {α : Type} (l : List α) (p q : α → Bool) : ((l.dropWhile p).filter q).length ≤ (l.filter q).length := by
+  have h := congrArg (fun l' => (List.filter q l').length) (List.takeWhile_append_dropWhile (p := p) (l := l))
+  simp only [List.filter_append, List.length_append] at h
+  omega
+
+/-- A change of the instance's record that keeps the object, its count and the bound of the timer loop. -/
+theorem setInst_rest (top : Top) (f : Inst → Inst) (hf : ∀ i, top.inst = some i → (f i).freed = i.freed ∧ (f i).refcount = i.refcount ∧
+    (f i).appRefs = i.appRefs ∧ (i.freed = true → f i = i))
+    (hp : ∀ i, top.inst = some i → ((f i).timers.filter (fun e => decide (e.1 ≤ top.now))).length + (watchCap - (f i).nW) ≤
+      (i.timers.filter (fun e => decide (e.1 ≤ top.now))).length + (watchCap - i.nW)) : Rest top (setInst top f) := by
+  refine ⟨?_, rfl, rfl, rfl, rfl, rfl, rfl, rfl, rfl, rfl, rfl, rfl, fun _ h => h, ?_⟩
+  · unfold setInst
+    cases hi : top.inst with
+    | none => trivial
+    | some i => exact hf i hi
+  · cases hi : top.inst with
+    | none => rw [pot_none (setInst_inst_none hi f)]; exact Nat.zero_le _
+    | some i =>
+      rw [pot_some (setInst_inst hi f), pot_some hi]
+      exact hp i hi
+
 /-- One action of a handler bound on the terminal, or of a watch: any API call on a window (`tickit_window_unref`
-    included), `tickit_term_ref`, `tickit_term_unref`. -/
+    included), `tickit_term_ref`, `tickit_term_unref`; the registration of a further timer or deferred call. -/
 theorem tAct_ok {cfg : Cfg} (R : Repaired cfg) {gh : Ghost} {top : Top} (F : FInv gh top) (a : TAct) :
     ∃ top', tAct cfg top a = .ok top' ∧ FInv gh top' ∧ Rest top top' := by
   cases a with
@@ -429,6 +493,44 @@ theorem tAct_ok {cfg : Cfg} (R : Repaired cfg) {gh : Ghost} {top : Top} (F : FIn
       intro b hb hna
       exact F.root b hb hna
     · rw [if_neg hh]
+      exact ⟨top, rfl, F, Rest.refl top⟩
+  | timerAt at_ =>
+    show ∃ top', (if (instHeld top && decide ((top.inst.getD {}).nW < watchCap)) = true then
+        (pure (setInst top (fun i => { i with timers := insertTimer i.timers at_ (.app i.nW []), nW := i.nW + 1 })) : Out Top)
+      else pure top) = .ok top' ∧ _
+    by_cases hc : (instHeld top && decide ((top.inst.getD {}).nW < watchCap)) = true
+    · rw [if_pos hc]
+      simp only [Bool.and_eq_true, decide_eq_true_eq] at hc
+      obtain ⟨i, hi, hfi, _⟩ := instHeld_spec hc.1
+      have hn : i.nW < watchCap := by have := hc.2; rw [hi] at this; exact this
+      refine ⟨_, rfl, F.of_fields rfl rfl, setInst_rest top _ ?_ ?_⟩
+      · intro j hj
+        rw [hi] at hj; cases hj
+        exact ⟨rfl, rfl, rfl, fun h => by rw [hfi] at h; cases h⟩
+      · intro j hj
+        rw [hi] at hj; cases hj
+        show ((insertTimer i.timers at_ (.app i.nW [])).filter _).length + (watchCap - (i.nW + 1)) ≤ _
+        rw [filter_insertTimer_length]
+        split <;> omega
+    · rw [if_neg hc]
+      exact ⟨top, rfl, F, Rest.refl top⟩
+  | later =>
+    show ∃ top', (if (instHeld top && decide ((top.inst.getD {}).nW < watchCap)) = true then
+        (pure (setInst top (fun i => { i with laters := i.laters ++ [.app i.nW []], nW := i.nW + 1 })) : Out Top)
+      else pure top) = .ok top' ∧ _
+    by_cases hc : (instHeld top && decide ((top.inst.getD {}).nW < watchCap)) = true
+    · rw [if_pos hc]
+      simp only [Bool.and_eq_true, decide_eq_true_eq] at hc
+      obtain ⟨i, hi, hfi, _⟩ := instHeld_spec hc.1
+      refine ⟨_, rfl, F.of_fields rfl rfl, setInst_rest top _ ?_ ?_⟩
+      · intro j hj
+        rw [hi] at hj; cases hj
+        exact ⟨rfl, rfl, rfl, fun h => by rw [hfi] at h; cases h⟩
+      · intro j hj
+        rw [hi] at hj; cases hj
+        show (i.timers.filter _).length + (watchCap - (i.nW + 1)) ≤ _
+        omega
+    · rw [if_neg hc]
       exact ⟨top, rfl, F, Rest.refl top⟩
 
 theorem tActs_ok {cfg : Cfg} (R : Repaired cfg) {gh : Ghost} : ∀ (acts : List TAct) {top : Top}, FInv gh top →
@@ -566,10 +668,6 @@ theorem runEvents_ok {cfg : Cfg} (R : Repaired cfg) {gh : Ghost} : ∀ (evs : Li
     obtain ⟨top1, h1, F1, R1⟩ := runTermEvent_ok R F e.1 e.2
     obtain ⟨top2, h2, F2, R2⟩ := runEvents_ok R rest F1
     exact ⟨top2, by rw [List.foldlM_cons, h1]; exact h2, F2, R1.trans R2⟩
-
-/-- Fields the invariant does not look at. -/
-theorem FInv.of_fields {gh : Ghost} {a b : Top} (F : FInv gh a) (hst : b.st = a.st) (htb : b.tbinds = a.tbinds) : FInv gh b :=
-  ⟨by rw [hst]; exact F.inv, by rw [hst]; exact F.keep, by rw [htb]; exact F.ids, by rw [hst, htb]; exact F.root⟩
 
 /-- `get_keys`: every key and mouse event libtermkey hands out is delivered. -/
 theorem getKeys_ok {cfg : Cfg} (R : Repaired cfg) {gh : Ghost} {top : Top} (F : FInv gh top) (toks : List Tok) {r : Out Top}
@@ -971,7 +1069,7 @@ theorem tunbind_ok {tc : TCfg} {top : Top} (T : TopInv top) (id : Int) :
   rw [e]
   split
   · exact ⟨top, "skip", rfl, T.pre⟩
-  · refine ⟨_, _, rfl, T.pre_of_rest ⟨InstRel.refl _, rfl, rfl, rfl, rfl, rfl, rfl, rfl, rfl, rfl, rfl, rfl, fun c hc => (List.mem_filter.1 hc).1⟩
+  · refine ⟨_, _, rfl, T.pre_of_rest ⟨InstRel.refl _, rfl, rfl, rfl, rfl, rfl, rfl, rfl, rfl, rfl, rfl, rfl, fun c hc => (List.mem_filter.1 hc).1, Nat.le_refl _⟩
       ⟨T.f.inv, T.f.keep, nodup_map_filter (fun (b : TBind) => b.id) _ T.f.ids, fun b hb hna => T.f.root b (List.mem_filter.1 hb).1 hna⟩⟩
 
 theorem tick_ok {tc : TCfg} {top : Top} (T : TopInv top) (ms : Int) :
@@ -1099,15 +1197,6 @@ theorem newtop_ok {tc : TCfg} (top : Top) (lines cols : Int) :
     subst this
     cases hf
 
-theorem instHeld_spec {top : Top} (h : instHeld top = true) : ∃ i, top.inst = some i ∧ i.freed = false ∧ 0 < i.appRefs := by
-  unfold instHeld at h
-  cases hi : top.inst with
-  | none => rw [hi] at h; cases h
-  | some i =>
-    rw [hi] at h
-    simp only [Bool.and_eq_true, Bool.not_eq_true', decide_eq_true_eq] at h
-    exact ⟨i, rfl, h.1, h.2⟩
-
 /-- A change of the instance's record that keeps it alive with a right count. -/
 theorem TopPre.pre_setInst {top : Top} (T : TopPre top) {i : Inst} (hi : top.inst = some i) (hf : i.freed = false) (f : Inst → Inst)
     (hff : (f i).freed = false) (hrc : 1 ≤ (f i).refcount ∧ (f i).refcount = ((f i).appRefs : Int)) : TopPre (setInst top f) := by
@@ -1144,32 +1233,53 @@ theorem iref_ok {tc : TCfg} {top : Top} (T : TopInv top) :
 theorem ilater_ok {tc : TCfg} {top : Top} (T : TopInv top) (acts : List TAct) :
     ∃ top1 r, xstepCore tc top (.ilater acts) = .ok (top1, r) ∧ TopPre top1 := by
   have e : xstepCore tc top (.ilater acts) =
-      (if !instHeld top then pure (top, "skip")
+      (if (!instHeld top || decide ((top.inst.getD {}).nW ≥ watchCap)) = true then pure (top, "skip")
        else pure (setInst top (fun i => { i with laters := i.laters ++ [.app i.nW acts], nW := i.nW + 1 }), "ok")) := rfl
   rw [e]
-  by_cases hh : instHeld top = true
-  · rw [if_neg (by rw [hh]; simp)]
+  by_cases hc : (!instHeld top || decide ((top.inst.getD {}).nW ≥ watchCap)) = true
+  · rw [if_pos hc]
+    exact ⟨top, "skip", rfl, T.pre⟩
+  · rw [if_neg hc]
+    have hh : instHeld top = true := by
+      cases h : instHeld top
+      · rw [h] at hc; simp at hc
+      · rfl
     obtain ⟨i, hi, hf, hpos⟩ := instHeld_spec hh
     exact ⟨_, _, rfl, T.pre_setInst hi hf _ hf (T.inst.live i hi hf)⟩
-  · rw [if_pos (not_true_of hh)]
+
+theorem itimerat_ok {tc : TCfg} {top : Top} (T : TopInv top) (at_ : Int) (acts : List TAct) :
+    ∃ top1 r, xstepCore tc top (.itimerat at_ acts) = .ok (top1, r) ∧ TopPre top1 := by
+  have e : xstepCore tc top (.itimerat at_ acts) =
+      (if (!instHeld top || decide ((top.inst.getD {}).nW ≥ watchCap)) = true then pure (top, "skip")
+       else pure (setInst top (fun i => { i with timers := insertTimer i.timers at_ (.app i.nW acts), nW := i.nW + 1 }), "ok")) := rfl
+  rw [e]
+  by_cases hc : (!instHeld top || decide ((top.inst.getD {}).nW ≥ watchCap)) = true
+  · rw [if_pos hc]
     exact ⟨top, "skip", rfl, T.pre⟩
+  · rw [if_neg hc]
+    have hh : instHeld top = true := by
+      cases h : instHeld top
+      · rw [h] at hc; simp at hc
+      · rfl
+    obtain ⟨i, hi, hf, hpos⟩ := instHeld_spec hh
+    exact ⟨_, _, rfl, T.pre_setInst hi hf _ hf (T.inst.live i hi hf)⟩
 
 theorem itimer_ok {tc : TCfg} {top : Top} (T : TopInv top) (ms : Int) (acts : List TAct) :
     ∃ top1 r, xstepCore tc top (.itimer ms acts) = .ok (top1, r) ∧ TopPre top1 := by
   have e : xstepCore tc top (.itimer ms acts) =
-      (if !instHeld top then pure (top, "skip")
-       else
-        let at_ := top.now + ms
-        pure (setInst top (fun i => { i with
-          timers := i.timers.takeWhile (fun e => e.1 ≤ at_) ++ [(at_, .app i.nW acts)] ++ i.timers.dropWhile (fun e => e.1 ≤ at_),
-          nW := i.nW + 1 }), "ok")) := rfl
+      (if (!instHeld top || decide ((top.inst.getD {}).nW ≥ watchCap)) = true then pure (top, "skip")
+       else pure (setInst top (fun i => { i with timers := insertTimer i.timers (top.now + ms) (.app i.nW acts), nW := i.nW + 1 }), "ok")) := rfl
   rw [e]
-  by_cases hh : instHeld top = true
-  · rw [if_neg (by rw [hh]; simp)]
+  by_cases hc : (!instHeld top || decide ((top.inst.getD {}).nW ≥ watchCap)) = true
+  · rw [if_pos hc]
+    exact ⟨top, "skip", rfl, T.pre⟩
+  · rw [if_neg hc]
+    have hh : instHeld top = true := by
+      cases h : instHeld top
+      · rw [h] at hc; simp at hc
+      · rfl
     obtain ⟨i, hi, hf, hpos⟩ := instHeld_spec hh
     exact ⟨_, _, rfl, T.pre_setInst hi hf _ hf (T.inst.live i hi hf)⟩
-  · rw [if_pos (not_true_of hh)]
-    exact ⟨top, "skip", rfl, T.pre⟩
 
 def isK (k : Nat) : WItem → Bool
   | .app idx _ => idx = k
@@ -1275,7 +1385,7 @@ theorem instDestroy_ok {tc : TCfg} (R : Repaired tc.base) (hrf : tc.rootForgetsT
       (unrefW_keeps F.keep hu) F.ids
     have Rx : Rest top ({ top with st := st1, dangling := rootAlive st1 && !tc.rootForgetsTickit } : Top) :=
       ⟨InstRel.refl _, by show (rootAlive st1 && !tc.rootForgetsTickit) = top.dangling; rw [hrf, hd]; simp,
-       rfl, rfl, rfl, rfl, rfl, rfl, rfl, rfl, rfl, rfl, fun _ h => h⟩
+       rfl, rfl, rfl, rfl, rfl, rfl, rfl, rfl, rfl, rfl, fun _ h => h, Nat.le_refl _⟩
     obtain ⟨top1, h1, P1, hj, S1, E1⟩ := destroyTail_ok F1 (Rx.trans R1) hsw hi ha hd
     refine ⟨top1, h1, P1, hj, S1, EndRel.trans ⟨unrefW_tally hu, ⟨hsz1, hfr1, hmono1⟩⟩ ?_⟩
     rw [sync_st] at E1
@@ -1332,14 +1442,6 @@ theorem iunref_ok {tc : TCfg} (R : Repaired tc.base) (hrf : tc.rootForgetsTickit
 
 /-! ### `tickit_tick` -/
 
-theorem setInst_rest (top : Top) (f : Inst → Inst) (hf : ∀ i, top.inst = some i → (f i).freed = i.freed ∧ (f i).refcount = i.refcount ∧
-    (f i).appRefs = i.appRefs ∧ (i.freed = true → f i = i)) : Rest top (setInst top f) := by
-  refine ⟨?_, rfl, rfl, rfl, rfl, rfl, rfl, rfl, rfl, rfl, rfl, rfl, fun _ h => h⟩
-  unfold setInst
-  cases hi : top.inst with
-  | none => trivial
-  | some i => exact hf i hi
-
 theorem live_of_rel {a b : Top} (h : InstRel a.inst b.inst) (hl : ∀ i, a.inst = some i → i.freed = false) :
     ∀ j, b.inst = some j → j.freed = false := by
   intro j hj
@@ -1352,17 +1454,25 @@ theorem onTermTimeout_ok {cfg : Cfg} (R : Repaired cfg) {gh : Ghost} {top : Top}
     (hlive : ∀ i, top.inst = some i → i.freed = false) :
     ∃ top', onTermTimeout cfg top = .ok top' ∧ FInv gh top' ∧ Rest top top' := by
   have hf : top.st.term.freed = false := term_live_of_ghost F.inv hg
-  have tail : ∀ (t : Top) (msec : Int), FInv gh t → Rest top t → ∃ top',
+  -- the timer for what is left of the timeout lies ahead: it is not due
+  have tail : ∀ (t : Top) (msec : Int), msec ≠ 0 → FInv gh t → Rest top t → ∃ top',
       (if msec > -1 then
-        (pure (setInst t (fun i => { i with timers := i.timers.takeWhile (fun e => e.1 ≤ t.now + msec) ++ [(t.now + msec, .termTimeout)] ++ i.timers.dropWhile (fun e => e.1 ≤ t.now + msec) })) : Out Top)
+        (pure (setInst t (fun i => { i with timers := insertTimer i.timers (t.now + msec) .termTimeout })) : Out Top)
       else pure t) = .ok top' ∧ FInv gh top' ∧ Rest top top' := by
-    intro t msec Ft Rt
+    intro t msec hm Ft Rt
     split
-    · refine ⟨_, rfl, Ft.of_fields rfl rfl, Rt.trans (setInst_rest t _ ?_)⟩
-      intro i hi
-      refine ⟨rfl, rfl, rfl, fun hfr => ?_⟩
-      have := live_of_rel Rt.inst hlive i hi
-      rw [this] at hfr; cases hfr
+    · rename_i hpos
+      refine ⟨_, rfl, Ft.of_fields rfl rfl, Rt.trans (setInst_rest t _ ?_ ?_)⟩
+      · intro i hi
+        refine ⟨rfl, rfl, rfl, fun hfr => ?_⟩
+        have := live_of_rel Rt.inst hlive i hi
+        rw [this] at hfr; cases hfr
+      · intro i hi
+        show ((insertTimer i.timers (t.now + msec) .termTimeout).filter _).length + _ ≤ _
+        rw [filter_insertTimer_length]
+        have : ¬ (t.now + msec ≤ t.now) := by omega
+        simp only [this, decide_false, Bool.false_eq_true, if_false]
+        omega
     · exact ⟨t, rfl, Ft, Rt⟩
   unfold onTermTimeout
   dsimp only
@@ -1370,9 +1480,9 @@ theorem onTermTimeout_ok {cfg : Cfg} (R : Repaired cfg) {gh : Ghost} {top : Top}
   · simp only [h0, if_true]
     obtain ⟨t1, h1, F1, R1⟩ := withTermRef_ok F hf (f := timedOut cfg) (fun t Ft => timedOut_ok R Ft)
     simp only [h1, bind_ok]
-    exact tail t1 (-1) F1 R1
+    exact tail t1 (-1) (by decide) F1 R1
   · simp only [h0, if_false, pure_ok, bind_ok]
-    exact tail top (getTimeout top) F (Rest.refl top)
+    exact tail top (getTimeout top) h0 F (Rest.refl top)
 
 /-- A timer or a deferred call fires: a watch of the application (any actions), or the instance's own timer for the
     terminal's input timeout. -/
@@ -1397,14 +1507,100 @@ theorem fireItems_ok {cfg : Cfg} (R : Repaired cfg) {gh : Ghost} (hg : 1 ≤ gh.
     obtain ⟨top2, h2, F2, R2⟩ := fireItems_ok R hg timer g rest F1 (live_of_rel R1.inst hl)
     exact ⟨top2, by rw [List.foldlM_cons, h1]; exact h2, F2, R1.trans R2⟩
 
+/-- The loop of `tickit_evloop_invoke_timers` comes to an end within the bound `Top.pot`: every turn takes a due timer
+    off the queue, and what its callback registers uses up the registrations that are left. -/
+theorem invokeTimers_ok {cfg : Cfg} (R : Repaired cfg) {gh : Ghost} (hg : 1 ≤ gh.term) : ∀ (fuel : Nat) {top : Top}, FInv gh top →
+    (∀ i, top.inst = some i → i.freed = false) → top.pot < fuel →
+    ∃ top', invokeTimers cfg fuel top = .ok top' ∧ FInv gh top' ∧ Rest top top'
+  | 0, _, _, _, h => absurd h (Nat.not_lt_zero _)
+  | fuel + 1, top, F, hl, hp => by
+    unfold invokeTimers
+    cases hi : top.inst with
+    | none => exact ⟨top, rfl, F, Rest.refl top⟩
+    | some i =>
+      have hget : top.inst.getD {} = i := by rw [hi]; rfl
+      cases ht : i.timers with
+      | nil =>
+        refine ⟨top, ?_, F, Rest.refl top⟩
+        show (match i.timers with
+          | [] => (pure top : Out Top)
+          | e :: rest => if e.1 > top.now then pure top else do
+              let top ← fireItem cfg true (setInst top (fun i => { i with timers := rest })) e.2
+              invokeTimers cfg fuel top) = _
+        rw [ht]
+        rfl
+      | cons e rest =>
+        show ∃ top', (match i.timers with
+          | [] => (pure top : Out Top)
+          | e :: rest => if e.1 > top.now then pure top else do
+              let top ← fireItem cfg true (setInst top (fun i => { i with timers := rest })) e.2
+              invokeTimers cfg fuel top) = .ok top' ∧ _
+        rw [ht]
+        dsimp only
+        by_cases hd : e.1 > top.now
+        · rw [if_pos hd]; exact ⟨top, rfl, F, Rest.refl top⟩
+        · rw [if_neg hd]
+          have hfi : i.freed = false := hl i hi
+          have hdue : decide (e.1 ≤ top.now) = true := by simp only [decide_eq_true_eq]; omega
+          have hcount : ((e :: rest).filter (fun e => decide (e.1 ≤ top.now))).length =
+              (rest.filter (fun e => decide (e.1 ≤ top.now))).length + 1 := by
+            rw [List.filter_cons, if_pos hdue]; rfl
+          have R01 : Rest top (setInst top (fun i => { i with timers := rest })) := by
+            refine setInst_rest top _ ?_ ?_
+            · intro j hj; rw [hi] at hj; cases hj
+              exact ⟨rfl, rfl, rfl, fun h => by rw [hfi] at h; cases h⟩
+            · intro j hj; rw [hi] at hj; cases hj
+              show (rest.filter (fun e => decide (e.1 ≤ top.now))).length + (watchCap - i.nW) ≤
+                (i.timers.filter (fun e => decide (e.1 ≤ top.now))).length + (watchCap - i.nW)
+              rw [ht, hcount]; omega
+          have hp1 : (setInst top (fun i => { i with timers := rest })).pot + 1 ≤ top.pot := by
+            rw [pot_some (setInst_inst hi _), pot_some hi]
+            show (rest.filter (fun e => decide (e.1 ≤ top.now))).length + (watchCap - i.nW) + 1 ≤
+              (i.timers.filter (fun e => decide (e.1 ≤ top.now))).length + (watchCap - i.nW)
+            rw [ht, hcount]; omega
+          obtain ⟨t2, h2, F2, R12⟩ := fireItem_ok R hg true (top := setInst top (fun i => { i with timers := rest }))
+            (F.of_fields rfl rfl) (live_of_rel R01.inst hl) e.2
+          have R02 := R01.trans R12
+          obtain ⟨t3, h3, F3, R23⟩ := invokeTimers_ok R hg fuel F2 (live_of_rel R02.inst hl) (by have := R12.pot; omega)
+          refine ⟨t3, ?_, F3, R02.trans R23⟩
+          rw [h2]
+          exact h3
+
+/-- When the loop of `tickit_evloop_invoke_timers` ends, the head of the queue is not due - whatever the callbacks have put
+    there meanwhile: a timer a callback registers for an instant that has passed is run by the same call. -/
+theorem invokeTimers_head (cfg : Cfg) : ∀ (fuel : Nat) (top top' : Top), invokeTimers cfg fuel top = .ok top' →
+    ∀ e rest, (top'.inst.getD {}).timers = e :: rest → e.1 > top'.now
+  | 0, _, _, h => by cases h
+  | fuel + 1, top, top', h => by
+    intro e rest he
+    unfold invokeTimers at h
+    cases ht : (top.inst.getD {}).timers with
+    | nil =>
+      rw [ht] at h
+      cases h
+      rw [ht] at he; cases he
+    | cons e0 rest0 =>
+      rw [ht] at h
+      dsimp only at h
+      by_cases hd : e0.1 > top.now
+      · rw [if_pos hd] at h
+        cases h
+        rw [ht] at he; cases he
+        exact hd
+      · rw [if_neg hd] at h
+        cases hf : fireItem cfg true (setInst top (fun i => { i with timers := rest0 })) e0.2 with
+        | ok t2 =>
+          rw [hf] at h
+          exact invokeTimers_head cfg fuel t2 top' h e rest he
+        | ub k w => rw [hf] at h; cases h
+        | fuel => rw [hf] at h; cases h
+
 /-- What `tickit_tick` does once the root window has been flushed. -/
 def tickTail (cfg : Cfg) (top : Top) (toks : List Tok) : Out Top := do
   let i := top.inst.getD {}
   let later := i.laters
-  let due := i.timers.takeWhile (fun e => e.1 ≤ top.now)
-  let now := top.now
-  let top := setInst top (fun i => { i with laters := [], timers := i.timers.dropWhile (fun e => e.1 ≤ now) })
-  let top ← due.foldlM (fun top e => fireItem cfg true top e.2) top
+  let top := setInst top (fun i => { i with laters := [] })
+  let top ← invokeTimers cfg (top.pot + 1) top
   let top ← later.foldlM (fireItem cfg false) top
   if toks.isEmpty then pure top
   else do
@@ -1420,15 +1616,15 @@ theorem tickTail_ok {cfg : Cfg} (R : Repaired cfg) {gh : Ghost} (hg : 1 ≤ gh.t
     ∃ top', tickTail cfg top toks = .ok top' ∧ FInv gh top' ∧ Rest top top' := by
   unfold tickTail
   dsimp only
-  have R0 : Rest top (setInst top (fun i => { i with laters := [], timers := i.timers.dropWhile (fun e => e.1 ≤ top.now) })) := by
-    refine setInst_rest top _ ?_
-    intro i hi
-    refine ⟨rfl, rfl, rfl, fun hfr => ?_⟩
-    rw [hlive i hi] at hfr; cases hfr
-  obtain ⟨t1, h1, F1, R1⟩ := fireItems_ok R hg true (fun (e : Int × WItem) => e.2)
-    ((top.inst.getD {}).timers.takeWhile (fun e => e.1 ≤ top.now))
-    (top := setInst top (fun i => { i with laters := [], timers := i.timers.dropWhile (fun e => e.1 ≤ top.now) }))
-    (F.of_fields rfl rfl) (live_of_rel R0.inst hlive)
+  have R0 : Rest top (setInst top (fun i => { i with laters := [] })) := by
+    refine setInst_rest top _ ?_ ?_
+    · intro i hi
+      refine ⟨rfl, rfl, rfl, fun hfr => ?_⟩
+      rw [hlive i hi] at hfr; cases hfr
+    · intro i _; exact Nat.le_refl _
+  obtain ⟨t1, h1, F1, R1⟩ := invokeTimers_ok R hg ((setInst top (fun i => { i with laters := [] })).pot + 1)
+    (top := setInst top (fun i => { i with laters := [] }))
+    (F.of_fields rfl rfl) (live_of_rel R0.inst hlive) (Nat.lt_succ_self _)
   simp only [h1, bind_ok]
   have R01 := R0.trans R1
   obtain ⟨t2, h2, F2, R2⟩ := fireItems_ok R hg false (fun (e : WItem) => e) (top.inst.getD {}).laters F1 (live_of_rel R01.inst hlive)
@@ -1606,6 +1802,7 @@ theorem xstepCore_ok {tc : TCfg} (R : TRepaired tc) {top : Top} (T : TopInv top)
   | iunref => exact iunref_ok R.base R.rootForgets T
   | ilater acts => exact ilater_ok T acts
   | itimer ms acts => exact itimer_ok T ms acts
+  | itimerat at_ acts => exact itimerat_ok T at_ acts
   | icancel k => exact icancel_ok T k
   | itick toks => exact itick_ok R.base T toks
   | mresize lines cols => exact mresize_ok T lines cols
